@@ -23,7 +23,7 @@ What is read (Python `ast` only, nothing of /repo is imported) and what is emitt
 Fail-closed: every shape not listed above raises TranslateError.
 """
 import ast
-from pycoq import TranslateError, parse_file, fail
+from pycoq import TranslateError, parse_file, fail, norm_function
 
 D = 'src/qce_circuit'
 SRC_OPS = f'{D}/structure/circuit_operations.py'
@@ -285,6 +285,9 @@ def translate_stim_method(classes, name):
     shape, qf = qshape(classes, name)
     params = ([] if shape == 'QS_list' else qf) + own_int_fields(classes, name)
     tr = StimMethod(name, params)
+    # guard clauses are read in one direction (pycoq N2 + N3): `if not-A or not-B: return Y` followed by X is the same function as
+    # `if A and B: X` followed by `return Y`.  Annotations stay (they type the locals here), nothing else is rewritten.
+    fn = norm_function(fn, annotations=False, accumulate=False, single_use=False, helpers=False)
     body = tr.block(fn.body, {}, 2)
     sig = " ".join(f"self_{p}" for p in params)
     txt = f"Definition {name}_params : list string := [{'; '.join(cstr(p) for p in params)}].\n"
@@ -384,7 +387,9 @@ def find_construct(cls, nparams):
         if isinstance(s, ast.FunctionDef) and s.name == 'construct':
             if len(s.args.args) != nparams or s.args.args[0].arg != 'self':
                 fail(s, "construct signature")
-            return s
+            # a local that only names one argument of the next call (`targets = get_qubit_index(operation)`) is substituted back
+            # (pycoq N1 + N4; refused when another call would be evaluated between the two places)
+            return norm_function(s, guards=False, accumulate=False, helpers=False)
     raise TranslateError(f"{cls.name}: no construct method")
 
 
